@@ -815,7 +815,8 @@ fn gen_arr_list(rng: &mut Rng, ty: &str, max_arrays: usize) -> (String, Vec<usiz
 
 fn gen_case(rng: &mut Rng) -> (String, String) {
     let ty = *rng.pick(ALL_TYPES);
-    match rng.below(20) {
+    match rng.below(21) {
+        20 => gen_take_oob(rng, ty),
         0..=5 => {
             let n = gen_len(rng);
             let (rows, ntag) = gen_rows(rng, ty, n);
@@ -930,6 +931,43 @@ fn gen_case(rng: &mut Rng) -> (String, String) {
     }
 }
 
+/// small `take` with exactly one out-of-range valid index of a chosen kind (just past the end,
+/// negative, or a value that aliases a valid row after 32-bit truncation / multiplication)
+fn gen_take_oob(rng: &mut Rng, ty: &str) -> (String, String) {
+    let n = 1 + rng.usize(9);
+    let (mut rows, ntag) = gen_rows(rng, ty, n);
+    if rng.bool() {
+        let hi = if ty == "bool" { 2 } else { 61 };
+        rows = (0..n).map(|_| Some(rng.below(hi) as u32)).collect();
+    }
+    let ity = *rng.pick(IDX_TYPES);
+    let (_, lo, hi) = ity;
+    let cands: [i128; 9] = [
+        n as i128,
+        n as i128 + 1 + rng.below(5) as i128,
+        -1,
+        -(n as i128),
+        (1i128 << 31) + rng.below(n as u64) as i128,
+        (1i128 << 32) - 1,
+        (1i128 << 32) + rng.below(n as u64) as i128,
+        (1i128 << 63) + rng.below(n as u64) as i128,
+        127.max(n as i128),
+    ];
+    let fits: Vec<i128> = cands.iter().copied().filter(|v| *v >= lo && *v <= hi && !(*v >= 0 && *v < n as i128)).collect();
+    let k = 1 + rng.usize(4);
+    let mut items: Vec<String> = (0..k).map(|_| if rng.chance(1, 6) { "n".to_string() } else { rng.usize(n).to_string() }).collect();
+    let oob = !fits.is_empty();
+    if oob {
+        let pos = rng.usize(items.len() + 1);
+        items.insert(pos, rng.pick(&fits).to_string());
+    }
+    let check = rng.bool();
+    (
+        format!("C03 take {} {} {} {} {} {} {}", ty, ity.0, check as u8, if rng.chance(1, 3) { gen_off(rng) } else { 0 }, show_rows(&rows), if rng.chance(1, 3) { gen_off(rng) } else { 0 }, show_list(&items)),
+        format!("op:take ty:{} ity:{} {} take:oob-focus {}", ty, ity.0, ntag, if oob { if check { "take:oob-checked" } else { "take:oob-unchecked" } } else { "" }),
+    )
+}
+
 fn gen_coalesce(rng: &mut Rng) -> (String, String) {
     let ty = *rng.pick(&["i32", "i64", "sv", "utf8", "i32+utf8", "i32+i64", "i32+sv", "i32", "sv", "list", "dict"]);
     let target = if rng.chance(1, 4) { *rng.pick(&[1usize, 2, 3, 8, 16, 17, 64, 70]) } else { 1 + rng.usize(70) };
@@ -1027,6 +1065,11 @@ fn main() {
             let mut tags = tags;
             if INVALID_RESULTS.load(std::sync::atomic::Ordering::Relaxed) != before {
                 tags.push_str(" wf:result-fails-validate_full");
+            }
+            if tags.contains("take:oob-") && !tags.contains("take:oob-focus ") || (tags.contains("take:oob-checked") || tags.contains("take:oob-unchecked")) {
+                if a != "PANIC" && !a.starts_with("ERR:") {
+                    tags.push_str(" take:oob-returned-ok");
+                }
             }
             if a.starts_with("BAD:") {
                 // the result array is not made of input rows / fails validation: property violated
